@@ -68,6 +68,9 @@ func checkC05(c *Ctx) {
 	r.Min("C05.minter-cancel", 2)
 	r.Min("C05.bounded-loops", 2)
 
+	// iterators that are abandoned before they are exhausted keep their store lock (C17.scan-complete)
+	c.includeKeys("iter-nesting", "C17", rulesIn("C17.guards"), func(rule, key string) bool { return strings.Contains(key, "scan-complete") })
+
 	// ---- iter-nesting ---------------------------------------------------------------------
 	regions := p.Regions(live)
 	nReg := 0
